@@ -25,7 +25,7 @@ CHECKS['C05'] = dict(text='Symbolic execution of function::build / type_definiti
              'declared value, the declared receiver/parameters/return type in order; on rejected paths it proves the declaration was not acceptable.',
              note='semantic stage only: the emitted wrapper text and its run-time call through the absolute address are not decided (no engine here can execute a call to an integer address); <= 3 parameters',
              design='4/C05')
-CHECKS['C08'] = dict(text='Symbolic execution of enum_definition::build for 1..3 (thorough 5) variants, each explicit value symbolic over the whole isize range, '
+CHECKS['C08'] = dict(text='Symbolic execution of enum_definition::build for 1..3 (thorough 4) variants, each explicit value symbolic over the whole isize range, '
              'every base type and default-marker placement: accepted paths must have discriminants = explicit value or predecessor+1, size/alignment '
              'of the base type, default index = marked variant, defaultable consistent; rejected paths must be invalid descriptions; no panics.',
              note='variants bounded (statement says up to 32); emission (`= v as _`, repr, #[default]) not covered; one open known finding (out-of-range values accepted, required by the repository\'s own test)',
